@@ -4,13 +4,13 @@ import time
 from vlib import common, hjmc
 from vlib.common import Report, Violation, HarnessError
 
-QUICK_BOUNDS = [(1, 3, 1, 1), (2, 2, 1, 1), (3, 1, 1, 1), (2, 2, 2, 1)]
+QUICK_BOUNDS = [(1, 3, 1, 1), (1, 4, 1, 1), (2, 2, 1, 1), (3, 1, 1, 1), (2, 2, 2, 1)]
 THOROUGH_BOUNDS = [(1, 4, 3, 2), (2, 2, 2, 2), (2, 3, 1, 1), (3, 1, 2, 1)]
 HUGE_BOUNDS = [(3, 2, 1, 1), (4, 1, 1, 1)]      # 2.0e6 states (~10 min) and 1.4e5 states (four athletes): C02 and C08 thorough only
 # the same exploration with the bar heights passed as other numeric types (bounds, codec)
 QUICK_CODECS = [((2, 1, 1, 1), 'decimal-mm'), ((2, 2, 1, 1), 'float-cm'), ((2, 2, 1, 1), 'decimal-cm'), ((1, 3, 1, 1), 'float-cm'), ((2, 2, 1, 1), 'decimal-10m'), ((2, 1, 1, 1), 'decimal-1m'),
                 ((2, 1, 1, 1), 'int'), ((2, 2, 1, 1), 'bibs:int'), ((2, 1, 1, 1), 'bibs:default'), ((2, 1, 1, 1), 'bibs:blank'), ((1, 2, 1, 1), 'bibs:none'),
-                ((2, 1, 1, 1), 'bibs:order-text'), ((2, 2, 1, 1), 'float-mm')]
+                ((2, 1, 1, 1), 'bibs:order-text'), ((2, 2, 1, 1), 'float-mm'), ((3, 1, 1, 1), 'opt:verbose'), ((2, 2, 1, 1), 'opt:verbose')]
 THOROUGH_CODECS = [((2, 2, 2, 1), 'decimal-10m'), ((2, 2, 1, 1), 'decimal-1m'), ((2, 2, 1, 1), 'int'), ((2, 2, 2, 1), 'bibs:int'), ((3, 1, 1, 1), 'bibs:int'), ((2, 2, 1, 1), 'bibs:default'), ((3, 1, 1, 1), 'bibs:default'), ((2, 2, 1, 1), 'bibs:blank'), ((3, 1, 1, 1), 'bibs:blank'), ((1, 3, 1, 1), 'bibs:none'), ((2, 2, 2, 1), 'float-cm'), ((2, 2, 2, 1), 'decimal-cm'), ((2, 2, 1, 1), 'decimal-mm'), ((1, 4, 3, 2), 'float-cm'), ((3, 1, 1, 1), 'float-cm'),
                    ((2, 3, 1, 1), 'float-cm'), ((2, 2, 1, 1), 'bibs:order-text'), ((2, 2, 2, 1), 'float-mm'), ((3, 1, 1, 1), 'float-mm')]
 
@@ -24,7 +24,10 @@ def set_codecs(codec):
     """'bibs:<name>' selects a bib codec, anything else a height codec"""
     hjmc.set_codec(None)
     hjmc.set_bibs(None)
-    if codec and codec.startswith('bibs:'):
+    hjmc.COMP_OPTS.clear()
+    if codec and codec.startswith('opt:'):
+        hjmc.COMP_OPTS[codec[4:]] = 1
+    elif codec and codec.startswith('bibs:'):
         hjmc.set_bibs(codec[5:])
     elif codec:
         hjmc.set_codec(codec)
